@@ -15,7 +15,7 @@ PROPS = {
              'the trace specification.',
         note='Ties are broken by arrival order (the test Scorer.Compare never ranks a newcomer above an equal-score '
              'member); capacity >= 1; the level structure itself is not observed, only its effect on the public API. '
-             'TLC bounds: <= 6 items, capacities 1-5, <= 6 calls exhaustive / 40 simulated.',
+             'TLC bounds: <= 6 items, capacities 1-5, <= 12 calls exhaustive (quick: 9) / 40 simulated.',
     ),
 }
 
